@@ -153,6 +153,15 @@ func (le *linEnv) norm(e ast.Expr, depth int) lin {
 		}
 	}
 	switch x := e.(type) {
+	case *ast.UnaryExpr:
+		switch x.Op {
+		case token.SUB:
+			out.addScaled(le.norm(x.X, depth+1), -1)
+			return out
+		case token.ADD:
+			return le.norm(x.X, depth+1)
+		}
+		out[le.atom(e)] = 1
 	case *ast.Ident:
 		o := le.fn.Pkg.Info.Uses[x]
 		if d, ok := le.defs[o]; ok {
@@ -766,4 +775,233 @@ func callsIn2(list []ast.Stmt) []*ast.CallExpr {
 		out = append(out, callsIn(st)...)
 	}
 	return out
+}
+
+// C14-R9: the indexed heaps are kept consistent.
+//
+// The manager removes and repairs queue entries by the position stored in
+// each entry (heap.Remove(&q, x.index), heap.Fix(&q, x.index)) and tells a
+// still-queued request from a served one by index >= 0.  That needs (a) every
+// container/heap implementation over elements with an `index` field to keep
+// the field equal to the position: Swap swaps the elements and then assigns
+// both indices, Push records the old length before appending, Pop marks the
+// removed element -1 and shrinks by one; and (b) a machine's load — the key
+// of machQ's order — to be changed only where a heap operation on that
+// machine follows on every path on which the machine stays queued.
+func c14r9(c *RC) {
+	pr := c.P
+	pk := pr.Pkgs["exec"]
+	if pk == nil {
+		c.Undecide("exec not loaded")
+		return
+	}
+	// element types with an int field named index, and the named slice types over them
+	type hq struct {
+		name string
+		elem string
+	}
+	var heaps []hq
+	for _, nm := range pk.Types.Scope().Names() {
+		tn, ok := pk.Types.Scope().Lookup(nm).(*types.TypeName)
+		if !ok {
+			continue
+		}
+		sl, ok := tn.Type().Underlying().(*types.Slice)
+		if !ok {
+			continue
+		}
+		ptr, ok := sl.Elem().(*types.Pointer)
+		if !ok {
+			continue
+		}
+		st, ok := ptr.Elem().Underlying().(*types.Struct)
+		if !ok {
+			continue
+		}
+		has := false
+		for i := 0; i < st.NumFields(); i++ {
+			if st.Field(i).Name() == "index" {
+				has = true
+			}
+		}
+		if has && pr.Fn("exec.("+"*"+nm+").Push") != nil {
+			heaps = append(heaps, hq{nm, typeString(ptr.Elem())})
+		}
+	}
+	c.Floor("indexed heap types", len(heaps), 3)
+	for _, h := range heaps {
+		// Swap
+		if fn := pr.Fn("exec." + h.name + ".Swap"); fn != nil {
+			r := recvOf(fn)
+			i, j := paramNames(fn)
+			swapAt, idxAt := -1, map[string]int{}
+			for si, st := range fn.Body.List {
+				a, ok := st.(*ast.AssignStmt)
+				if !ok {
+					continue
+				}
+				l := strings.ReplaceAll(nodeListStr(a.Lhs), " ", "")
+				rr := strings.ReplaceAll(nodeListStr(a.Rhs), " ", "")
+				if l == r+"["+i+"],"+r+"["+j+"]" && rr == r+"["+j+"],"+r+"["+i+"]" {
+					swapAt = si
+				}
+				for k, lh := range a.Lhs {
+					if k < len(a.Rhs) {
+						lt, rt := strings.ReplaceAll(expr(lh), " ", ""), strings.ReplaceAll(expr(a.Rhs[k]), " ", "")
+						if lt == r+"["+i+"].index" && rt == i {
+							idxAt[i] = si
+						}
+						if lt == r+"["+j+"].index" && rt == j {
+							idxAt[j] = si
+						}
+					}
+				}
+			}
+			_, okI := idxAt[i]
+			_, okJ := idxAt[j]
+			c.Check(swapAt >= 0 && okI && okJ && idxAt[i] > swapAt && idxAt[j] > swapAt, fn.QName()+"|positions-follow-the-swap", pr.Pos(fn.Body.Pos()),
+				"Swap does not exchange the two elements and then record their new positions in both index fields: heap.Fix/heap.Remove by stored index then repair or remove the wrong entry — a different machine or request than intended leaves the queue")
+		} else {
+			c.Fail("exec."+h.name+".Swap|exists", "exec/slicemachine.go", "heap type "+h.name+" has no Swap")
+		}
+		// Push
+		if fn := pr.Fn("exec.(*" + h.name + ").Push"); fn != nil {
+			r := recvOf(fn)
+			le := newLinEnv(pr, fn)
+			rec, app := -1, -1
+			for si, st := range fn.Body.List {
+				a, ok := st.(*ast.AssignStmt)
+				if !ok || len(a.Lhs) != 1 || len(a.Rhs) != 1 {
+					continue
+				}
+				if sel, ok := a.Lhs[0].(*ast.SelectorExpr); ok && sel.Sel.Name == "index" {
+					if le.norm(a.Rhs[0], 0).String() == (lin{"len(*$recv)": 1}).String() {
+						rec = si
+					}
+				}
+				if k, ok := a.Rhs[0].(*ast.CallExpr); ok && expr(k.Fun) == "append" && strings.ReplaceAll(expr(a.Lhs[0]), " ", "") == "*"+r {
+					app = si
+				}
+			}
+			c.Check(rec >= 0 && app >= 0, fn.QName()+"|records-position", pr.Pos(fn.Body.Pos()),
+				"Push does not record the new element's position (the length before appending) in its index field and append it")
+		}
+		// Pop
+		if fn := pr.Fn("exec.(*" + h.name + ").Pop"); fn != nil {
+			mark, shrink := false, false
+			le := newLinEnv(pr, fn)
+			ast.Inspect(fn.Body, func(n ast.Node) bool {
+				a, ok := n.(*ast.AssignStmt)
+				if !ok || len(a.Lhs) != 1 || len(a.Rhs) != 1 {
+					return true
+				}
+				if sel, ok := a.Lhs[0].(*ast.SelectorExpr); ok && sel.Sel.Name == "index" {
+					if v, isC := constInt(fn.Pkg, a.Rhs[0]); isC && v == -1 {
+						mark = true
+					}
+				}
+				if sl, ok := ast.Unparen(a.Rhs[0]).(*ast.SliceExpr); ok && sl.High != nil {
+					hi := le.norm(sl.High, 0)
+					// len(old) - 1, whatever the spelling
+					okHi := false
+					for t, k := range hi {
+						if strings.HasPrefix(t, "len(") && k == 1 && hi[""] == -1 && len(nonZero(hi)) == 2 {
+							okHi = true
+						}
+					}
+					if okHi && (sl.Low == nil || expr(sl.Low) == "0") {
+						shrink = true
+					}
+				}
+				return true
+			})
+			c.Check(mark && shrink, fn.QName()+"|marks-removed-and-shrinks-by-one", pr.Pos(fn.Body.Pos()),
+				"Pop does not mark the removed element with index -1 and shrink the queue by exactly its last element: a served request still looks queued (its cancellation is subtracted from demand a second time) or an entry is lost")
+		}
+	}
+	// (b) load changes are followed by a heap operation on that machine
+	if fn := pr.Fn("exec.(*machineManager).Do"); fn != nil {
+		fl := pr.Flow(fn)
+		n := 0
+		for _, b := range fl.G.Blocks {
+			if !b.Live {
+				continue
+			}
+			for i, nd := range b.Nodes {
+				a, ok := nd.(*ast.AssignStmt)
+				if !ok || len(a.Lhs) != 1 || (a.Tok != token.ADD_ASSIGN && a.Tok != token.SUB_ASSIGN) {
+					continue
+				}
+				sel, ok := a.Lhs[0].(*ast.SelectorExpr)
+				if !ok || pr.fieldQName(fn.Pkg.FieldOf(sel)) != "exec.sliceMachine.taskProcs" {
+					continue
+				}
+				n++
+				mach := expr(sel.X)
+				// the enclosing select arm bounds the search
+				var arm *ast.CommClause
+				for _, p := range pathTo(fn.Body, a) {
+					if cc, ok := p.(*ast.CommClause); ok {
+						arm = cc
+					}
+				}
+				bad := ""
+				var trail []string
+				fl.Walk(Loc{b, i + 1}, "", nil, Visitor{
+					Node: func(m ast.Node, x string, s *Step) (string, bool) {
+						if arm != nil && (m.Pos() < arm.Pos() || m.Pos() >= arm.End()) {
+							// left the arm without a heap operation: fine only if the machine is known lost
+							lost := false
+							for _, f := range s.Facts {
+								if strings.HasSuffix(stripAt(f.key), ".health") && f.eq && f.val == "machineLost" {
+									lost = true
+								}
+							}
+							if !lost {
+								bad = "the arm ends"
+								trail = s.Trail()
+							}
+							return x, true
+						}
+						found := false
+						for _, k := range callsIn(m) {
+							switch fn.Pkg.CalleeName(k) {
+							case "container/heap.Fix", "container/heap.Remove", "container/heap.Push":
+								for _, arg := range k.Args[1:] {
+									if strings.HasPrefix(expr(arg), mach+".") || expr(arg) == mach {
+										found = true
+									}
+								}
+							}
+						}
+						if found {
+							return x, true
+						}
+						return x, false
+					},
+					Exit: func(kind ExitKind, ret *ast.ReturnStmt, x string, s *Step) {}})
+				c.Check(bad == "", fmt.Sprintf("%s|load-change#%d-followed-by-heap-repair", fn.QName(), n), pr.Pos(a.Pos()),
+					"the load of "+mach+" (the key of the machine queue's order) is changed and "+bad+" without a heap.Fix/Remove/Push for that machine: the queue's order is stale, schedule() looks at a machine that is not the least loaded and leaves a request that fits on another machine waiting", trail...)
+			}
+		}
+		c.Floor("load changes in Do", n, 2)
+	}
+}
+
+func nonZero(l lin) []string {
+	var out []string
+	for t, k := range l {
+		if k != 0 {
+			out = append(out, t)
+		}
+	}
+	return out
+}
+
+func nodeListStr(es []ast.Expr) string {
+	var parts []string
+	for _, e := range es {
+		parts = append(parts, expr(e))
+	}
+	return strings.Join(parts, ",")
 }
